@@ -33,6 +33,14 @@ PRETEXTS = [
     ("# rule:", "# desc:"),
     ("#N=", "#D="),
     ("# Name >> ", "# About >> "),
+    ("# Filter (name): ", "# Filter (description): "),
+    ("#[N] ", "#[D] "),
+    ("#* Name: ", "#* About: "),
+    ("# What? ", "# Why? "),
+    ("#+N.", "#+D."),
+    ("# N|n: ", "# D|d: "),
+    ("#\\n ", "#\\d "),
+    ("# ^name$ ", "# ^desc$ "),
 ]
 NAME_ALPHA = ["abcdefghijklmnopqrstuvwxyz0123456789", " ", "éüß€日本𝔘", ".-_@!?()[]{}*+=/", "ABCXYZ", "#:;,\"\\'|<>~"]
 
